@@ -49,11 +49,12 @@ def build():
         for op in ('add', 'sub', 'rem'):
             forms4(h, '%s__%s' % (op, u), gn, T, T, T, OPS[op], [opf(op, a, b)])
             h.root('%s_assign__%s' % (op, u), gn + '(a: &mut %s, b: %s)' % (T, T), '*a %s= b' % OPS[op], ('post', {'a0': [opf(op, a, b)]}))
-        forms4(h, 'div_aa__' + u, gn, T, T, 'S', '/', a / b)
+        forms4(h, 'div_aa__' + u, gn, T, T, 'S', '/', A.fn('idiv', a, b), field_div=False)
         s = ss('a1')
         for op in ('mul', 'div'):
-            forms2(h, '%s_s__%s' % (op, u), gn, T, 'S', T, OPS[op], [opf(op, a, s)])
-            h.root('%s_s_assign__%s' % (op, u), gn + '(a: &mut %s, b: S)' % T, '*a %s= b' % OPS[op], ('post', {'a0': [opf(op, a, s)]}))
+            e_ = [A.fn('idiv', a, s)] if op == 'div' else [opf(op, a, s)]
+            forms2(h, '%s_s__%s' % (op, u), gn, T, 'S', T, OPS[op], e_, field_div=False)
+            h.root('%s_s_assign__%s' % (op, u), gn + '(a: &mut %s, b: S)' % T, '*a %s= b' % OPS[op], ('post', {'a0': e_}), field_div=False)
         h.root('neg__%s__v' % u, g + '(a: %s) -> %s' % (T, T), '-a', ('value', [-a]))
         h.root('neg__%s__r' % u, g + '(a: &%s) -> %s' % (T, T), '-a', ('value', [-a]))
         h.root('sum__%s__v' % u, '<S: BaseFloat, I: Iterator<Item = %s>>(i: I) -> %s' % (T, T), '<%s as Sum<%s>>::sum(i)' % (T, T), ('sum',))
